@@ -16,7 +16,9 @@ def stdlib_names():
 def _ex(mod, cls, *a):
   def mk():
     import sys
-    if '/repo' not in sys.path: sys.path.insert(0, '/repo')
+    import os
+    repo = os.environ.get('VERIF_REPO', '/repo')
+    if repo not in sys.path: sys.path.insert(0, repo)
     return getattr(importlib.import_module(mod), cls)(*a)
   return mk
 
